@@ -4,6 +4,7 @@ import (
 	"fmt"
 	"go/constant"
 	"go/types"
+	"regexp"
 	"regexp/syntax"
 	"sort"
 	"strings"
@@ -788,4 +789,116 @@ func zipDecides(c *aeCtx, root *ssa.Function, early func(w *world, result int64)
 	}
 	sort.Strings(bad)
 	return n, bad, oof
+}
+
+// ---- R-SEMVER-STRICT: the strict semver ecosystem rejects what SemVer 2.0.0 rejects ------------------
+//
+// The constructor is evaluated abstractly with the submatch list of its pattern as an abstract value
+// (element k ranges over the language of capture group k). Every abstract world that returns a version
+// must be incompatible with "a numeric component longer than one character starts with '0'".
+// Missing components and empty identifiers are properties of the pattern itself.
+func ruleSemverStrict(p *Prog, r *Report) {
+	e := ecoByName(p, "semver")
+	if e == nil {
+		r.Und("R-SEMVER-STRICT", "semver: ecosystem", "", "ecosystem not found")
+		return
+	}
+	ef := ecoFieldInfo(p, e)
+	key := "semver: numeric components with leading zeros are rejected"
+	if ef.main == nil || len(ef.leadG) < 3 {
+		r.Und("R-SEMVER-STRICT", key, p.FnPos(e.NewVer), "version pattern with three leading numeric groups not found")
+		return
+	}
+	c := newAECtx(p)
+	c.stageMode = false
+	c.subModel = true
+	leaves, oof := c.tabulate(e.NewVer, paramArgs(e.NewVer))
+	if oof != "" {
+		r.Und("R-SEMVER-STRICT", key, p.FnPos(e.NewVer), "constructor outside the evaluator's fragment: "+oof)
+	} else {
+		var bad []string
+		succ := 0
+		for _, lf := range leaves {
+			t, ok := lf.res.(avTuple)
+			if !ok || len(t) != 2 {
+				continue
+			}
+			if _, isNil := t[1].(avNil); !isNil {
+				continue
+			}
+			succ++
+			for _, k := range ef.leadG[:3] {
+				// the atoms about group k in this world
+				excluded := false
+				for pk, v := range lf.w.pos {
+					akey := pk[:strings.LastIndex(pk, "|")]
+					suffix := fmt.Sprintf("[%d]", k)
+					switch {
+					case strings.HasPrefix(akey, "len(m") && strings.HasSuffix(akey, suffix+")"):
+						if one := poolIndexInt(c.pools[akey], 1); one >= 0 && v <= 2*one+1 {
+							excluded = true // at most one character
+						}
+					case strings.HasPrefix(akey, "m") && strings.HasSuffix(akey, suffix+"[0]"):
+						if z := poolIndexInt(c.pools[akey], '0'); z >= 0 && v != 2*z+1 {
+							excluded = true // does not start with '0'
+						}
+					}
+				}
+				if !excluded {
+					bad = append(bad, fmt.Sprintf("a version is returned in a world that does not exclude a leading zero in numeric group %d: [%s]", k, lf.w.describe(c.pools, c.terms)))
+				}
+			}
+		}
+		switch {
+		case len(bad) > 0:
+			sort.Strings(bad)
+			r.Bad("R-SEMVER-STRICT", key, p.FnPos(e.NewVer), fmt.Sprintf("%d abstract worlds, e.g. %s", len(bad), bad[0]))
+		case succ < 4:
+			r.Und("R-SEMVER-STRICT", key, p.FnPos(e.NewVer), fmt.Sprintf("only %d successful abstract worlds", succ))
+		default:
+			r.Ok("R-SEMVER-STRICT", key, p.FnPos(e.NewVer), fmt.Sprintf("in all %d successful abstract worlds of the constructor (of %d) each of the three numeric groups is at most one character long or does not start with '0'", succ, len(leaves)))
+		}
+	}
+	// the pattern: three mandatory numeric components; identifiers are never empty
+	key2 := "semver: missing components and empty identifiers are rejected by the pattern"
+	var problems []string
+	for _, k := range ef.leadG[:3] {
+		if !(k < len(ef.main.GroupMust) && ef.main.GroupMust[k] && ef.main.GroupMin[k] >= 1) {
+			problems = append(problems, fmt.Sprintf("numeric group %d is optional or may be empty", k))
+		}
+	}
+	if !strings.HasPrefix(ef.main.Pattern, "^") || !strings.HasSuffix(ef.main.Pattern, "$") {
+		problems = append(problems, "the pattern is not anchored at both ends")
+	}
+	for _, ch := range []string{"-", "+"} {
+		k := ef.groupAfter(ch)
+		if k == 0 {
+			problems = append(problems, "no group after '"+ch+"'")
+			continue
+		}
+		sub := findGroup(ef.main.Re, k)
+		re, err := regexp.Compile("^(?:" + sub.String() + ")$")
+		if err != nil {
+			problems = append(problems, "group after '"+ch+"' could not be analysed")
+			continue
+		}
+		for _, w := range []string{"", "a..b", ".a", "a.", "."} {
+			if re.MatchString(w) {
+				problems = append(problems, fmt.Sprintf("the group after '%s' accepts %q (an empty identifier)", ch, w))
+			}
+		}
+		if !re.MatchString("a.1.b-c") {
+			problems = append(problems, fmt.Sprintf("the group after '%s' does not accept dotted identifiers", ch))
+		}
+	}
+	if len(problems) > 0 {
+		r.Bad("R-SEMVER-STRICT", key2, p.FnPos(e.NewVer), strings.Join(problems, "; "))
+	} else {
+		r.Ok("R-SEMVER-STRICT", key2, p.FnPos(e.NewVer), "anchored pattern; three mandatory non-empty numeric groups; the pre-release and build groups accept no empty identifier (membership of \"\", \"a..b\", \".a\", \"a.\" in the group's language is decided on the pattern)")
+	}
+	r.Floor("R-SEMVER-STRICT", 2)
+}
+
+func init() {
+	register("C08", "", ruleSemverStrict)
 }
